@@ -687,6 +687,26 @@ func (e *Env) evalBinary(n EBinary, hint types.Type) TV {
 	if vc.sortOf(l.typ) != vc.sortOf(r.typ) {
 		e.fail("operands of %s have different sorts: %s (%s) vs %s (%s)", n.Op, n.X, l.typ, n.Y, r.typ)
 	}
+	// typed constants (os.ModeSetuid | os.ModeSetgid): bitwise operators on two non-negative literals are
+	// folded, as the compiler folds them in the code (in integer mode they would be uninterpreted)
+	if op == token.AND || op == token.OR || op == token.XOR || op == token.AND_NOT {
+		a, okA := new(big.Int).SetString(l.term, 10)
+		b, okB := new(big.Int).SetString(r.term, 10)
+		if okA && okB && a.Sign() >= 0 && b.Sign() >= 0 {
+			v := new(big.Int)
+			switch op {
+			case token.AND:
+				v.And(a, b)
+			case token.OR:
+				v.Or(a, b)
+			case token.XOR:
+				v.Xor(a, b)
+			case token.AND_NOT:
+				v.AndNot(a, b)
+			}
+			return TV{term: v.String(), typ: l.typ}
+		}
+	}
 	t, _ := vc.binop(op, l.term, r.term, l.typ, r.typ)
 	if isCmp {
 		return TV{term: t, typ: bt}
